@@ -5,11 +5,36 @@
 -/
 import GoImap.Model.ClientParse
 import GoImap.Spec.NumSet
+import GoImap.Lemmas.NumSetOps
+import GoImap.Lemmas.NumSetNums
+import GoImap.Lemmas.NumSetParse
 namespace GoImap.ClientParse
 open GoImap
 
 /-- a result set as the client may hand it over: canonical and without "*" -/
-def StaticSet (s : NumSet.Set) : Prop := NumSetSpec.canonical s = true ∧ NumSet.dynamic s = false
+def StaticSet (s : NumSet.Set) : Prop := NumSet.Canon s ∧ NumSet.dynamic s = false
+
+theorem static_nil : StaticSet [] := ⟨trivial, rfl⟩
+
+theorem static_addNum (s : NumSet.Set) (n : Nat) (h : StaticSet s) (h0 : n ≠ 0) (hW : n < NumSet.W) :
+    StaticSet (NumSet.addNum s n) := by
+  have hc : NumSet.Canon (NumSet.insert s ⟨n, n⟩) := NumSet.insert_canon s _ h.1 (NumSet.num_wf n hW)
+  refine ⟨hc, ?_⟩
+  unfold NumSet.addNum
+  rw [NumSet.dynamic_eq_any _ 0 hc, NumSet.insert_any s _ h.1 (NumSet.num_wf n hW) 0 (by decide),
+    ← NumSet.dynamic_eq_any s 0 h.1, h.2]
+  simp [NumSet.Range.contains, h0]
+
+theorem canon_of_parseSet (t : List Char) (s : NumSet.Set) (h : NumSet.parseSet t = some s) : NumSet.Canon s := by
+  unfold NumSet.parseSet at h
+  obtain ⟨h1, h2⟩ := NumSet.parseItems_sound (NumSet.splitOn ',' t) [] trivial
+  cases hm : (NumSet.splitOn ',' t).mapM NumSetSpec.seqItem with
+  | none => rw [h1 hm] at h; cases h
+  | some items =>
+    obtain ⟨s', hs', hc, _⟩ := h2 items hm
+    rw [hs'] at h
+    cases h
+    exact hc
 
 /-- what must hold of the client state at every moment -/
 structure GoodCS (cs : CS) : Prop where
@@ -17,7 +42,6 @@ structure GoodCS (cs : CS) : Prop where
   all : ∀ u s, cs.sAll = some (u, s) → StaticSet s
   src : ∀ s, cs.src = some s → StaticSet s
   dst : ∀ s, cs.dst = some s → StaticSet s
-  dd : cs.deliveredDepth ≤ maxListDepth
 
 def Good (d : Dec) : Prop := GoodCS d.cs ∧ d.maxDepth ≤ maxListDepth
 
@@ -254,5 +278,734 @@ theorem tr_expectSpecial (w : UInt8) : Tr' (expectSpecial w) := by
 
 theorem tr_sp : Tr' sp := by
   unfold sp; tr_auto
+
+theorem tr_expectSP : Tr' expectSP := by unfold expectSP; tr_auto [tr_sp]
+
+theorem tr_crlf : Tr' crlf := by unfold crlf; tr_auto
+
+theorem tr_expectCRLF : Tr' expectCRLF := by unfold expectCRLF; tr_auto [tr_crlf]
+
+theorem tr_atom : Tr' atom := tr_func _
+theorem tr_text : Tr' text := tr_func _
+theorem tr_numberStr : Tr' numberStr := tr_func _
+
+theorem tr_expectAtom : Tr' expectAtom := by unfold expectAtom; tr_auto [tr_atom]
+
+theorem tr_discardUntilByte (u : UInt8) : Tr' (discardUntilByte u) := by unfold discardUntilByte; tr_auto
+
+theorem tr_numberBelow (b : Nat) : Tr (numberBelow b) (fun o => ∀ n, o = some n → n < b) := by
+  unfold numberBelow
+  refine tr_bind' tr_numberStr ?_
+  intro o
+  cases o with
+  | none => exact tr_pure _ _ (by intro n h; cases h)
+  | some s =>
+    refine tr_pure _ _ ?_
+    intro n h
+    by_cases c : valOfB s < b
+    · simp only [c, if_true] at h; cases h; exact c
+    · simp only [c, if_false] at h; cases h
+
+theorem tr_expectOpt {α} {p : P (Option α)} {Q : α → Prop} (hp : Tr p (fun o => ∀ a, o = some a → Q a)) :
+    Tr (expectOpt p) Q := by
+  unfold expectOpt
+  refine tr_bind hp ?_
+  intro o ho
+  cases o with
+  | none => exact tr_fail _
+  | some a => exact tr_pure _ _ (ho a rfl)
+
+theorem tr_expectNumber : Tr expectNumber (fun n => n < NumSet.W) := tr_expectOpt (tr_numberBelow _)
+theorem tr_expectNumber' : Tr' expectNumber := tr_weaken tr_expectNumber (fun _ _ => trivial)
+theorem tr_expectNumber64 : Tr' expectNumber64 := tr_weaken (tr_expectOpt (tr_numberBelow _)) (fun _ _ => trivial)
+theorem tr_expectModSeq : Tr' expectModSeq := tr_weaken (tr_expectOpt (tr_numberBelow _)) (fun _ _ => trivial)
+theorem tr_number : Tr' number := tr_weaken (tr_numberBelow _) (fun _ _ => trivial)
+theorem tr_number64 : Tr' number64 := tr_weaken (tr_numberBelow _) (fun _ _ => trivial)
+
+theorem tr_quoted : Tr' quoted := by unfold quoted; tr_auto [tr_special]
+
+theorem tr_literal : Tr' literal := by unfold literal; tr_auto [tr_special, tr_number64, tr_crlf]
+
+theorem tr_string : Tr' string := by unfold string; tr_auto [tr_quoted, tr_literal]
+
+theorem tr_expectString : Tr' expectString := by
+  unfold expectString expectOpt; tr_auto [tr_string]
+
+theorem tr_expectNString : Tr' expectNString := by unfold expectNString; tr_auto [tr_atom, tr_expectString]
+
+theorem tr_expectAString : Tr' expectAString := by
+  unfold expectAString; tr_auto [tr_quoted, tr_literal, tr_expectAtom]
+
+theorem tr_expectNIL : Tr' expectNIL := by unfold expectNIL; tr_auto [tr_expectAtom]
+
+theorem tr_listLoop (f : P Unit) (hf : Tr' f) : ∀ fuel, Tr' (listLoop f fuel) := by
+  intro fuel
+  induction fuel with
+  | zero => unfold listLoop; exact tr_nofuel _
+  | succ n ih => unfold listLoop; tr_auto [tr_special, tr_expectSP]
+
+theorem tr_list (fuel depth : Nat) (f : Nat → P Unit) (hd : depth < maxListDepth)
+    (hf : ∀ dp, dp < maxListDepth → Tr' (f dp)) : Tr' (list fuel depth f) := by
+  unfold list
+  tr_auto [tr_special]
+  exact tr_listLoop _ (hf _ ‹_›) _
+
+theorem tr_expectList (fuel depth : Nat) (f : Nat → P Unit) (hd : depth < maxListDepth)
+    (hf : ∀ dp, dp < maxListDepth → Tr' (f dp)) : Tr' (expectList fuel depth f) := by
+  unfold expectList
+  have := tr_list fuel depth f hd hf
+  tr_auto
+
+theorem tr_expectNList (fuel depth : Nat) (f : Nat → P Unit) (hd : depth < maxListDepth)
+    (hf : ∀ dp, dp < maxListDepth → Tr' (f dp)) : Tr' (expectNList fuel depth f) := by
+  unfold expectNList
+  have := tr_expectList fuel depth f hd hf
+  tr_auto [tr_atom]
+
+theorem tr_discardValue : ∀ fuel depth, depth < maxListDepth → Tr' (discardValue fuel depth) := by
+  intro fuel
+  induction fuel with
+  | zero => intro depth _; unfold discardValue; exact tr_nofuel _
+  | succ n ih =>
+    intro depth hd
+    unfold discardValue
+    have hl := tr_list n depth (fun dp => discardValue n dp) hd (fun dp h => ih dp h)
+    tr_auto [tr_string, tr_atom]
+
+theorem tr_expectNumSet : Tr expectNumSet (fun r => r.1 = false → StaticSet r.2) := by
+  unfold expectNumSet
+  refine tr_bind' (tr_special _) ?_
+  intro b
+  split
+  · exact tr_pure _ _ (by intro h; cases h)
+  · refine tr_bind' (tr_func _) ?_
+    intro o
+    cases o with
+    | none => exact tr_fail _
+    | some s =>
+      simp only []
+      cases hp : NumSet.parseSet (s.map fun b => Char.ofNat b.toNat) with
+      | none => exact tr_fail _
+      | some set =>
+        exact tr_pure _ _ (fun hdyn => ⟨canon_of_parseSet _ _ hp, hdyn⟩)
+
+/-! ### state updates that keep the client state good -/
+
+theorem good_addToAll (cs : CS) (n : Nat) (h : GoodCS cs) (h0 : n ≠ 0) (hW : n < NumSet.W) : GoodCS (addToAll cs n) := by
+  unfold addToAll
+  cases hall : cs.sAll with
+  | none => simpa [hall] using h
+  | some us =>
+    obtain ⟨u, s0⟩ := us
+    refine ⟨h.nz, ?_, h.src, h.dst⟩
+    intro u' s' he
+    simp only [Option.some.injEq, Prod.mk.injEq] at he
+    rw [← he.2]
+    exact static_addNum s0 n (h.all u s0 hall) h0 hW
+
+theorem good_delivered (cs : CS) (l : List Nat) (h : GoodCS cs) (hl : ∀ n ∈ l, n ≠ 0) (cs' : CS)
+    (hd : cs'.delivered = cs.delivered ++ l) (ha : cs'.sAll = cs.sAll) (hs : cs'.src = cs.src) (ht : cs'.dst = cs.dst) :
+    GoodCS cs' := by
+  refine ⟨?_, by rw [ha]; exact h.all, by rw [hs]; exact h.src, by rw [ht]; exact h.dst⟩
+  intro n hn
+  rw [hd, List.mem_append] at hn
+  cases hn with
+  | inl h1 => exact h.nz n h1
+  | inr h2 => exact hl n h2
+
+/-- a change that touches neither the delivered numbers nor the delivered sets -/
+theorem good_same (cs cs' : CS) (h : GoodCS cs) (hd : cs'.delivered = cs.delivered) (ha : cs'.sAll = cs.sAll)
+    (hs : cs'.src = cs.src) (ht : cs'.dst = cs.dst) : GoodCS cs' :=
+  ⟨by rw [hd]; exact h.nz, by rw [ha]; exact h.all, by rw [hs]; exact h.src, by rw [ht]; exact h.dst⟩
+
+/-! ### SEARCH / ESEARCH / SORT / THREAD (the repaired reader: zero is rejected) -/
+
+theorem tr_searchLoop : ∀ fuel, Tr' (searchLoop true fuel) := by
+  intro fuel
+  induction fuel with
+  | zero => unfold searchLoop; exact tr_nofuel _
+  | succ n ih =>
+    unfold searchLoop
+    refine tr_bind' tr_sp ?_
+    intro b
+    split
+    · exact tr_pure _ _ trivial
+    · refine tr_bind' (tr_special _) ?_
+      intro b2
+      split
+      · refine tr_bind' tr_expectAtom ?_
+        intro name
+        refine tr_bind' tr_expectSP ?_
+        intro _
+        split
+        · exact tr_unmod _
+        · split
+          · exact tr_fail _
+          · refine tr_bind' tr_expectModSeq ?_
+            intro m
+            refine tr_bind' (tr_expectSpecial _) ?_
+            intro _
+            refine tr_modifyCS _ ?_
+            intro cs hcs
+            split
+            · exact good_same cs _ hcs rfl rfl rfl rfl
+            · exact hcs
+      · refine tr_bind tr_expectNumber ?_
+        intro num hnum
+        split
+        · exact tr_fail _
+        · rename_i hz
+          have h0 : num ≠ 0 := by
+            intro e; apply hz; simp [e]
+          refine tr_bind' (tr_modifyCS _ ?_) (fun _ => ih)
+          intro cs hcs
+          split
+          · exact good_addToAll cs num hcs h0 hnum
+          · exact hcs
+
+def GoodES (d : ESData) : Prop := ∀ u s, d.all = some (u, s) → StaticSet s
+
+theorem tr_esearchLoop (depth : Nat) (hd : depth < maxListDepth) :
+    ∀ fuel name data, GoodES data → Tr (esearchLoop depth fuel name data) GoodES := by
+  intro fuel
+  induction fuel with
+  | zero => intro name data _; unfold esearchLoop; exact tr_nofuel _
+  | succ n ih =>
+    intro name data hdata
+    unfold esearchLoop
+    refine tr_bind' tr_expectSP ?_
+    intro _
+    split
+    · exact tr_unmod _
+    · rename_i u hu
+      refine tr_bind (Q := GoodES) ?_ ?_
+      · split
+        · refine tr_bind' tr_expectNumber' ?_
+          intro k; exact tr_pure _ _ hdata
+        · split
+          · refine tr_bind' tr_expectNumber' ?_
+            intro k; exact tr_pure _ _ hdata
+          · split
+            · refine tr_bind tr_expectNumSet ?_
+              intro r hr
+              obtain ⟨dyn, set⟩ := r
+              simp only []
+              split
+              · exact tr_fail _
+              · rename_i hdyn
+                refine tr_pure _ _ ?_
+                intro u' s' he
+                simp only [Option.some.injEq, Prod.mk.injEq] at he
+                rw [← he.2]
+                exact hr (by simpa using hdyn)
+            · split
+              · refine tr_bind' tr_expectNumber' ?_
+                intro k; exact tr_pure _ _ hdata
+              · split
+                · refine tr_bind' tr_expectModSeq ?_
+                  intro k; exact tr_pure _ _ hdata
+                · refine tr_bind' (tr_discardValue n depth hd) ?_
+                  intro _; exact tr_pure _ _ hdata
+      · intro data' hdata'
+        refine tr_bind' tr_sp ?_
+        intro b
+        split
+        · exact tr_pure _ _ hdata'
+        · refine tr_bind' tr_expectAtom ?_
+          intro name'
+          exact ih name' data' hdata'
+
+theorem goodES_default (u : Bool) : GoodES { uid := u } := by
+  intro u' s' he; cases he
+
+theorem tr_readESearch (fuel : Nat) : Tr (readESearch fuel) (fun r => GoodES r.2) := by
+  unfold readESearch
+  refine tr_bind' ?_ ?_
+  · tr_auto [tr_special, tr_expectAtom, tr_expectSP, tr_expectAString, tr_expectSpecial]
+  · intro tag
+    refine tr_bind' tr_sp ?_
+    intro b
+    split
+    · exact tr_pure _ _ (goodES_default false)
+    · refine tr_bind' tr_expectAtom ?_
+      intro name
+      simp only []
+      split
+      · refine tr_bind' tr_sp ?_
+        intro b2
+        split
+        · exact tr_pure _ _ (goodES_default true)
+        · refine tr_bind' tr_expectAtom ?_
+          intro name2
+          refine tr_bind (tr_esearchLoop 0 (by decide) fuel name2 _ (goodES_default true)) ?_
+          intro d hd
+          exact tr_pure _ _ hd
+      · refine tr_bind (tr_esearchLoop 0 (by decide) fuel name _ (goodES_default false)) ?_
+        intro d hd
+        exact tr_pure _ _ hd
+
+theorem tr_handleESearch (fuel : Nat) : Tr' (handleESearch fuel) := by
+  unfold handleESearch
+  refine tr_bind' tr_expectSP ?_
+  intro _
+  refine tr_bind (tr_readESearch fuel) ?_
+  intro r hr
+  obtain ⟨tag, d⟩ := r
+  refine tr_modifyCS _ ?_
+  intro cs hcs
+  split
+  · exact ⟨hcs.nz, hr, hcs.src, hcs.dst⟩
+  · exact hcs
+
+theorem tr_sortLoop : ∀ fuel, Tr' (sortLoop true fuel) := by
+  intro fuel
+  induction fuel with
+  | zero => unfold sortLoop; exact tr_nofuel _
+  | succ n ih =>
+    unfold sortLoop
+    refine tr_bind' tr_sp ?_
+    intro b
+    split
+    · exact tr_pure _ _ trivial
+    · refine tr_bind' tr_expectNumber' ?_
+      intro num
+      split
+      · exact tr_fail _
+      · rename_i hz
+        have h0 : num ≠ 0 := by
+          intro e; apply hz; simp [e]
+        refine tr_bind' (tr_modifyCS _ ?_) (fun _ => ih)
+        intro cs hcs
+        split
+        · exact good_delivered cs [num] hcs (by intro k hk; simp at hk; rw [hk]; exact h0) _ rfl rfl rfl rfl
+        · exact hcs
+
+def TDok (t : TD) : Prop := ∀ n ∈ t.nums, n ≠ 0
+
+theorem tr_threadItem (sub : P TD) (t : TD) (hs : Tr sub TDok) (ht : TDok t) : Tr (threadItem true sub t) TDok := by
+  unfold threadItem
+  refine tr_bind' (p := (if !t.hasSub then number else pure none : P (Option Nat))) ?_ ?_
+  · split
+    · exact tr_number
+    · exact tr_pure _ _ trivial
+  · intro o
+    cases o with
+    | some n =>
+      simp only []
+      split
+      · exact tr_fail _
+      · rename_i hz
+        have h0 : n ≠ 0 := by
+          intro e; apply hz; simp [e]
+        refine tr_pure _ _ ?_
+        intro k hk
+        simp only [List.mem_append, List.mem_singleton] at hk
+        cases hk with
+        | inl h1 => exact ht k h1
+        | inr h2 => rw [h2]; exact h0
+    | none =>
+      simp only []
+      refine tr_bind hs ?_
+      intro s hsok
+      refine tr_pure _ _ ?_
+      intro k hk
+      simp only [List.mem_append] at hk
+      cases hk with
+      | inl h1 => exact ht k h1
+      | inr h2 => exact hsok k h2
+
+theorem tr_thread : ∀ fuel,
+    (∀ depth, depth < maxListDepth → Tr (threadList true fuel depth) TDok) ∧
+    (∀ dp t, dp < maxListDepth → TDok t → Tr (threadList.threadLoop true fuel dp t) TDok) := by
+  intro fuel
+  induction fuel with
+  | zero =>
+    constructor
+    · intro depth _; unfold threadList; exact tr_nofuel _
+    · intro dp t _ _; unfold threadList.threadLoop; exact tr_nofuel _
+  | succ n ih =>
+    constructor
+    · intro depth hd
+      unfold threadList
+      refine tr_bind' (tr_special _) ?_
+      intro b
+      split
+      · exact tr_fail _
+      · refine tr_bind' (tr_special _) ?_
+        intro b2
+        split
+        · exact tr_pure _ _ (by intro k hk; cases hk)
+        · refine tr_bind (tr_enter depth hd) ?_
+          intro dp hdp
+          refine tr_bind (ih.2 dp {} hdp (by intro k hk; cases hk)) ?_
+          intro t ht
+          exact tr_pure _ _ ht
+    · intro dp t hdp ht
+      unfold threadList.threadLoop
+      refine tr_bind (tr_threadItem _ t (ih.1 dp hdp) ht) ?_
+      intro t' ht'
+      refine tr_bind' (tr_special _) ?_
+      intro b
+      split
+      · exact tr_pure _ _ ht'
+      · refine tr_bind' tr_expectSP ?_
+        intro _
+        exact ih.2 dp t' hdp ht'
+
+theorem tr_threadsLoop : ∀ fuel, Tr' (threadsLoop true fuel) := by
+  intro fuel
+  induction fuel with
+  | zero => unfold threadsLoop; exact tr_nofuel _
+  | succ n ih =>
+    unfold threadsLoop
+    refine tr_bind' tr_sp ?_
+    intro b
+    split
+    · exact tr_pure _ _ trivial
+    · refine tr_bind ((tr_thread n).1 0 (by decide)) ?_
+      intro t ht
+      refine tr_bind' (tr_modifyCS _ ?_) (fun _ => ih)
+      intro cs hcs
+      split
+      · exact good_delivered cs t.nums hcs ht _ rfl rfl rfl rfl
+      · exact hcs
+
+/-! ### FETCH -/
+
+theorem tr_expectFlag : Tr' expectFlag := by
+  unfold expectFlag; tr_auto [tr_special, tr_expectAtom]
+
+theorem tr_readAddress : Tr' readAddress := by
+  unfold readAddress; tr_auto [tr_expectSpecial, tr_expectNString, tr_expectSP]
+
+theorem tr_addrLists (fuel depth : Nat) (hd : depth < maxListDepth) : ∀ n, Tr' (addrLists fuel depth n) := by
+  intro n
+  induction n with
+  | zero => unfold addrLists; exact tr_pure _ _ trivial
+  | succ k ih =>
+    unfold addrLists
+    have := tr_expectNList fuel depth (fun _ => readAddress) hd (fun _ _ => tr_readAddress)
+    tr_auto [tr_expectSP]
+
+theorem tr_readEnvelope (fuel depth : Nat) (hd : depth < maxListDepth) : Tr' (readEnvelope fuel depth) := by
+  unfold readEnvelope
+  have := tr_addrLists fuel depth hd 6
+  tr_auto [tr_expectSpecial, tr_expectNString, tr_expectSP]
+
+theorem tr_paramLoop : ∀ fuel k, Tr' (paramLoop fuel k) := by
+  intro fuel
+  induction fuel with
+  | zero => intro k; unfold paramLoop; exact tr_nofuel _
+  | succ n ih =>
+    intro k
+    unfold paramLoop
+    tr_auto [tr_expectString, tr_special, tr_expectSP, ih]
+
+theorem tr_readBodyFldParam (fuel depth : Nat) (hd : depth < maxListDepth) : Tr' (readBodyFldParam fuel depth) := by
+  unfold readBodyFldParam
+  tr_auto [tr_atom, tr_special, tr_paramLoop]
+
+theorem tr_readBodyFldDsp (fuel depth : Nat) (hd : depth < maxListDepth) : Tr' (readBodyFldDsp fuel depth) := by
+  unfold readBodyFldDsp
+  have := tr_readBodyFldParam fuel depth hd
+  tr_auto [tr_special, tr_expectNIL, tr_expectString, tr_expectSP, tr_expectSpecial]
+
+theorem tr_readBodyFldLang (fuel depth : Nat) (hd : depth < maxListDepth) : Tr' (readBodyFldLang fuel depth) := by
+  unfold readBodyFldLang
+  have := tr_list fuel depth (fun _ => do let _ ← expectString; pure ()) hd
+    (fun _ _ => by tr_auto [tr_expectString])
+  tr_auto [tr_expectNString]
+
+theorem tr_extTail (fuel depth : Nat) (hd : depth < maxListDepth) : Tr' (extTail fuel depth) := by
+  unfold extTail
+  have h1 := tr_readBodyFldDsp fuel depth hd
+  have h2 := tr_readBodyFldLang fuel depth hd
+  tr_auto [tr_sp, tr_expectNString]
+
+theorem tr_expectBodyFldOctets : Tr' expectBodyFldOctets := by
+  unfold expectBodyFldOctets; tr_auto [tr_expectNumber']
+
+theorem tr_trailingValues : ∀ fuel depth, depth < maxListDepth → Tr' (trailingValues fuel depth) := by
+  intro fuel
+  induction fuel with
+  | zero => intro depth _; unfold trailingValues; exact tr_nofuel _
+  | succ n ih =>
+    intro depth hd
+    unfold trailingValues
+    have := tr_discardValue n depth hd
+    have := ih depth hd
+    tr_auto [tr_sp]
+
+theorem tr_readBody : ∀ fuel,
+    (∀ depth nest, depth < maxListDepth → Tr' (readBody true fuel depth nest)) ∧
+    (∀ dp nest typ, dp < maxListDepth → Tr' (readBody.body1part true fuel dp nest typ)) ∧
+    (∀ dp nest acc dmax, dp < maxListDepth → Tr' (readBody.mpartLoop true fuel dp nest acc dmax)) := by
+  intro fuel
+  induction fuel with
+  | zero =>
+    refine ⟨?_, ?_, ?_⟩
+    · intro depth nest _; unfold readBody; exact tr_nofuel _
+    · intro dp nest typ _; unfold readBody.body1part; exact tr_nofuel _
+    · intro dp nest acc dmax _; unfold readBody.mpartLoop; exact tr_nofuel _
+  | succ n ih =>
+    obtain ⟨ihB, ih1, ihM⟩ := ih
+    refine ⟨?_, ?_, ?_⟩
+    · intro depth nest hd
+      unfold readBody
+      refine tr_bind (Q := fun r => r.1 < maxListDepth) ?_ ?_
+      · simp only [if_true]
+        refine tr_bind (tr_enter depth hd) ?_
+        intro dp hdp
+        exact tr_pure _ _ hdp
+      · intro r hr
+        obtain ⟨dp, nest'⟩ := r
+        simp only [] at hr
+        have h1 := fun typ => ih1 dp nest' typ hr
+        have hM := ihM dp nest' "" 0 hr
+        have hT := tr_trailingValues n dp hr
+        tr_auto [tr_expectSpecial, tr_string, h1]
+    · intro dp nest typ hd
+      unfold readBody.body1part
+      have hP := tr_readBodyFldParam n dp hd
+      have hE := tr_readEnvelope n dp hd
+      have hB := ihB dp nest hd
+      have hX := tr_extTail n dp hd
+      tr_auto [tr_expectSP, tr_expectString, tr_expectNString, tr_expectBodyFldOctets, tr_sp, tr_expectNumber64]
+    · intro dp nest acc dmax hd
+      unfold readBody.mpartLoop
+      have hP := tr_readBodyFldParam n dp hd
+      have hB := ihB dp nest hd
+      have hX := tr_extTail n dp hd
+      have hM := fun a b => ihM dp nest a b hd
+      tr_auto [tr_sp, tr_string, hM]
+
+/-! ### handing a FETCH message over -/
+
+theorem good_handleMsg (seq : Nat) (cs : CS) (h : GoodCS cs) : GoodCS (handleMsg seq cs) := by
+  unfold handleMsg
+  simp only []
+  split
+  · exact h
+  · split <;> (try split) <;> exact good_same cs _ h rfl rfl rfl rfl
+
+theorem handleMsg_delivered (seq : Nat) (cs : CS) : (handleMsg seq cs).delivered = cs.delivered := by
+  unfold handleMsg
+  simp only []
+  split
+  · rfl
+  · split <;> (try split) <;> rfl
+
+theorem good_deliverMsg (seq : Nat) (h0 : seq ≠ 0) (cs : CS) (h : GoodCS cs) : GoodCS (deliverMsg seq cs) := by
+  unfold deliverMsg
+  simp only []
+  have hm := good_handleMsg seq cs h
+  split
+  · exact good_delivered _ [seq] hm (by intro k hk; simp at hk; rw [hk]; exact h0) _ rfl rfl rfl rfl
+  · exact good_delivered _ [seq] hm (by intro k hk; simp at hk; rw [hk]; exact h0) _ rfl rfl rfl rfl
+
+theorem tr_flagLoop : ∀ fuel k, Tr' (flagLoop fuel k) := by
+  intro fuel
+  induction fuel with
+  | zero => intro k; unfold flagLoop; exact tr_nofuel _
+  | succ n ih =>
+    intro k
+    unfold flagLoop
+    tr_auto [tr_expectFlag, tr_special, tr_expectSP, ih]
+
+theorem tr_setCur (f : Msg → Msg) : Tr' (setCur f) := by
+  unfold setCur
+  exact tr_modifyCS _ (fun cs hcs => good_same cs _ hcs rfl rfl rfl rfl)
+
+theorem tr_fetchAtt (fuel dp seq : Nat) (hd : dp < maxListDepth) : Tr' (fetchAtt fuel dp true seq) := by
+  unfold fetchAtt
+  have hE := tr_readEnvelope fuel dp hd
+  have hB := (tr_readBody fuel).1 dp 0 hd
+  have hlast : Tr' (modifyCS fun cs =>
+      let cs := { cs with cur := { cs.cur with numAtts := cs.cur.numAtts + 1 } }
+      if cs.cur.numAtts > 32 then handleMsg seq cs else cs) := by
+    refine tr_modifyCS _ ?_
+    intro cs hcs
+    simp only []
+    split
+    · exact good_handleMsg seq _ (good_same cs _ hcs rfl rfl rfl rfl)
+    · exact good_same cs _ hcs rfl rfl rfl rfl
+  tr_auto [tr_expectSP, tr_special, tr_flagLoop, tr_setCur, tr_expectNumber64, tr_expectNumber', tr_expectSpecial, tr_expectModSeq]
+
+theorem tr_handleFetch (fuel seq : Nat) : Tr' (handleFetch fuel {} seq) := by
+  unfold handleFetch
+  split
+  · exact tr_fail _
+  · rename_i hz
+    have h0 : seq ≠ 0 := by
+      intro e; apply hz; simp [e]
+    refine tr_bind' (tr_modifyCS _ (fun cs hcs => good_same cs _ hcs rfl rfl rfl rfl)) ?_
+    intro _
+    refine tr_finally _ ?_ (good_deliverMsg seq h0)
+    exact tr_expectList fuel 0 _ (by decide) (fun dp hdp => tr_fetchAtt fuel dp seq hdp)
+
+/-! ### status responses, dispatch, the read loop -/
+
+theorem tr_capsLoop : ∀ fuel, Tr' (capsLoop fuel) := by
+  intro fuel
+  induction fuel with
+  | zero => unfold capsLoop; exact tr_nofuel _
+  | succ n ih => unfold capsLoop; tr_auto [tr_sp, tr_expectAtom]
+
+theorem tr_readCopyUID : Tr readCopyUID (fun r => StaticSet r.2.1 ∧ StaticSet r.2.2) := by
+  unfold readCopyUID
+  refine tr_bind' tr_expectNumber' ?_
+  intro v
+  refine tr_bind' tr_expectSP ?_
+  intro _
+  refine tr_bind tr_expectNumSet ?_
+  intro r1 h1
+  obtain ⟨d1, src⟩ := r1
+  refine tr_bind' tr_expectSP ?_
+  intro _
+  refine tr_bind tr_expectNumSet ?_
+  intro r2 h2
+  obtain ⟨d2, dst⟩ := r2
+  simp only []
+  split
+  · exact tr_fail _
+  · rename_i hdyn
+    simp only [Bool.or_eq_true, not_or, Bool.not_eq_true] at hdyn
+    exact tr_pure _ _ ⟨h1 hdyn.1, h2 hdyn.2⟩
+
+theorem tr_respCodeData (fuel : Nat) (tagged : Bool) (code : Bytes) : Tr' (respCodeData fuel {} tagged code) := by
+  unfold respCodeData
+  split
+  · exact tr_capsLoop fuel
+  · split
+    · refine tr_bind' tr_expectSP ?_
+      intro _
+      refine tr_bind' tr_expectNumber' ?_
+      intro v
+      refine tr_bind' tr_expectSP ?_
+      intro _
+      refine tr_bind' tr_expectNumber' ?_
+      intro u
+      split
+      · exact tr_fail _
+      · refine tr_modifyCS _ ?_
+        intro cs hcs
+        split
+        · exact good_same cs _ hcs rfl rfl rfl rfl
+        · exact hcs
+    · split
+      · refine tr_bind' tr_expectSP ?_
+        intro _
+        refine tr_bind tr_readCopyUID ?_
+        intro r hr
+        obtain ⟨v, s1, t1⟩ := r
+        refine tr_modifyCS _ ?_
+        intro cs hcs
+        split
+        · refine ⟨hcs.nz, hcs.all, ?_, ?_⟩
+          · intro s' he; simp only [Option.some.injEq] at he; rw [← he]; exact hr.1
+          · intro s' he; simp only [Option.some.injEq] at he; rw [← he]; exact hr.2
+        · exact hcs
+      · tr_auto [tr_expectSP, tr_expectNumber', tr_expectModSeq, tr_sp, tr_discardUntilByte]
+
+theorem tr_respCode (fuel : Nat) (tagged : Bool) : Tr' (respCode fuel {} tagged) := by
+  unfold respCode
+  tr_auto [tr_expectAtom, tr_expectSpecial, tr_respCodeData fuel tagged]
+
+theorem tr_respText (fuel : Nat) (tagged : Bool) : Tr' (respText fuel {} tagged) := by
+  unfold respText
+  have := tr_respCode fuel tagged
+  tr_auto [tr_sp, tr_special, tr_text]
+
+theorem tr_readTagged (fuel : Nat) (tag typ : Bytes) : Tr' (readTagged fuel {} tag typ) := by
+  unfold readTagged
+  refine tr_bind' tr_getCS ?_
+  intro cs
+  split
+  · exact tr_fail _
+  · refine tr_bind' (tr_modifyCS _ (fun cs hcs => good_same cs _ hcs rfl rfl rfl rfl)) ?_
+    intro _
+    refine tr_bind' (tr_respText fuel true) ?_
+    intro _
+    split
+    · exact tr_fail _
+    · refine tr_bind' tr_expectCRLF ?_
+      intro _
+      exact tr_modifyCS _ (fun cs hcs => good_same cs _ hcs rfl rfl rfl rfl)
+
+theorem tr_readData (fuel : Nat) (typ0 : Bytes) : Tr' (readData fuel {} typ0) := by
+  unfold readData
+  refine tr_bind' ?_ ?_
+  · tr_auto [tr_expectSP, tr_expectAtom]
+  · intro r
+    obtain ⟨num, typ⟩ := r
+    simp only []
+    split
+    · exact tr_respText fuel false
+    · split
+      · exact tr_capsLoop fuel
+      · split
+        · exact tr_pure _ _ trivial
+        · split
+          · split
+            · exact tr_fail _
+            · rename_i hz
+              have h0 : num ≠ 0 := by
+                intro e; apply hz; simp [e]
+              refine tr_modifyCS _ ?_
+              intro cs hcs
+              split
+              · exact good_delivered cs [num] hcs (by intro k hk; simp at hk; rw [hk]; exact h0) _ rfl rfl rfl rfl
+              · exact good_delivered cs [num] hcs (by intro k hk; simp at hk; rw [hk]; exact h0) _ rfl rfl rfl rfl
+          · split
+            · exact tr_bind' tr_expectSP (fun _ => tr_handleFetch fuel num)
+            · split
+              · exact tr_searchLoop fuel
+              · split
+                · exact tr_handleESearch fuel
+                · split
+                  · exact tr_sortLoop fuel
+                  · split
+                    · exact tr_threadsLoop fuel
+                    · split
+                      · exact tr_unmod _
+                      · exact tr_fail _
+
+theorem tr_readResponse (fuel : Nat) : Tr' (readResponse fuel {}) := by
+  unfold readResponse
+  have h1 := tr_readTagged fuel
+  have h2 := tr_readData fuel
+  tr_auto [tr_special, tr_expectAtom, tr_expectSP, tr_expectCRLF, h1, h2]
+
+/-- the read loop keeps the state good and never panics -/
+theorem readLoop_good (fuel : Nat) : ∀ n d, Good d →
+    (readLoop fuel {} n d).1 ≠ .panic ∧ Good (readLoop fuel {} n d).2 := by
+  intro n
+  induction n with
+  | zero => intro d hd; unfold readLoop; exact ⟨(by intro h; cases h), hd⟩
+  | succ k ih =>
+    intro d hd
+    unfold readLoop
+    split
+    · exact ⟨(by intro h; cases h), good_frame hd rfl rfl⟩
+    · have hg : Good { d with cost := d.cost + 1 } := good_frame hd rfl rfl
+      have h := (tr_readResponse fuel).run _ hg
+      split
+      · rename_i d' he; rw [he] at h; exact ih d' h.1
+      · rename_i e he; rw [he] at h; exact ⟨(by intro h; cases h), h⟩
+      · rename_i he; rw [he] at h; exact h.elim
+      · exact ⟨(by intro h; cases h), hd⟩
+      · exact ⟨(by intro h; cases h), hd⟩
+
+theorem good_init (tag : Bytes) (kind : Kind) (inp : Bytes) :
+    Good { inp := inp, cs := initCS tag kind, cfg := {} } := by
+  refine ⟨⟨?_, ?_, ?_, ?_⟩, Nat.zero_le _⟩
+  · intro n hn; cases hn
+  · intro u s he
+    unfold initCS at he
+    simp only [] at he
+    cases kind <;> simp at he
+    rw [he.2]; exact static_nil
+  · intro s he; cases he
+  · intro s he; cases he
 
 end GoImap.ClientParse
